@@ -96,16 +96,26 @@ def run(pid: str, tier: str, replay: str | None = None) -> int:
             rng.shuffle(order)
             probes = order[: (len(order) if tier == "thorough" else 12)]
             try:
+                seen_scores: dict[int, int] = {}
+                bad = False
                 for i in probes + probes[:3]:          # repeated calls on the same EnvSpec
                     got = es.compatibility(["py3"], ["none"], [algo[i]])
-                    exp = v["obs"]["scores"][i]
                     evals += 1
-                    if got is None or got[3] != exp:
-                        rep.violation(f"C09:score({c['os']}):wrong-score", f"{key}: tag {algo[i]} scored {got} ; specification says {exp}", dict(ctx, tag=algo[i]))
+                    if got is None or (i in seen_scores and seen_scores[i] != got[3]):
+                        rep.violation(f"C09:score({c['os']}):wrong-score", f"{key}: tag {algo[i]} scored {got}" + (f" after {seen_scores[i]}" if i in seen_scores else ""), dict(ctx, tag=algo[i]))
+                        bad = True
+                        break
+                    seen_scores[i] = got[3]
+                # the score ORDERS the tags like the list (earlier = better); its scale is not part of the statement
+                order = sorted(seen_scores)
+                for i, j in zip(order, order[1:]):
+                    if not bad and not seen_scores[i] > seen_scores[j]:
+                        rep.violation(f"C09:score({c['os']}):wrong-score", f"{key}: tag {algo[i]} (position {i}) scored {seen_scores[i]}, not above {algo[j]} (position {j}) scored {seen_scores[j]}; "
+                                      f"the specification's scores are {v['obs']['scores'][i]} and {v['obs']['scores'][j]}", dict(ctx, tag=algo[i]))
                         break
                 a = es.compatibility(["py3"], ["none"], ["any"])
                 n = es.compatibility(["py3"], ["none"], ["linux_nonesuch"])
-                if a is None or a[3] != 1 or n is not None:
+                if a is None or n is not None or (seen_scores and not a[3] < min(seen_scores.values())):
                     rep.violation(f"C09:score({c['os']}):any-or-foreign", f"{key}: 'any' scored {a}, foreign tag scored {n}", ctx)
             except Exception as e:  # noqa: BLE001
                 rep.violation(f"C09:score({c['os']}):raises-{type(e).__name__}", repr(e), ctx)
